@@ -325,8 +325,21 @@ def shard_main(argv: List[str]) -> int:
     out = spec["out"]
     res: Dict[str, Any]
     try:
+        mod = load_module(spec["prop"])  # property modules import cobra lazily
+        if "replay" not in spec:
+            ph = [p for p in mod.phases(spec["tier"]) if p.name == spec["phase"]][0]
+            if ph.params.get("instrument"):
+                # coverage-guided phase: the modules under test must be imported under atheris' import hook
+                from vfw import fuzz
+
+                if fuzz.available():
+                    import atheris
+
+                    if REPO_SRC not in sys.path:
+                        sys.path.insert(0, REPO_SRC)
+                    with atheris.instrument_imports(include=list(ph.params["instrument"])):
+                        import cobra  # noqa: F401
         ensure_sut()
-        mod = load_module(spec["prop"])
         if "replay" in spec:
             data = json.load(open(spec["replay"]["path"]))
             v = replay_entry(mod, spec["replay"]["check"] or data.get("check"), data["case"], known=())
